@@ -340,6 +340,9 @@ main(int argc, char **argv)
 		if (ccls == 0 && cdelta < 0) { c_in = 512 + 325; c_out = 512 + 85; }
 		if (scls == 0 && sdelta < 0) { s_in = 512 + 325; s_out = 512 + 85; }
 		if (vf_below(&r, 6) == 0) { c_in = F[ccls] + 325 + 85; }   /* the documented overheads and their sum */
+		/* two buffers of different classes: the smaller one decides */
+		if (clayout == TP_LAYOUT_SPLIT2 && vf_below(&r, 5) == 0) { c_out = F[vf_below(&r, 5)] + 85 + (size_t)(vf_below(&r, 3)); vf_stat("asymmetric_buffer_cases", 1); }
+		if (slayout == TP_LAYOUT_SPLIT2 && vf_below(&r, 5) == 0) { s_out = F[vf_below(&r, 5)] + 85 + (size_t)(vf_below(&r, 3)); vf_stat("asymmetric_buffer_cases", 1); }
 		if (clayout == TP_LAYOUT_MONO) c_out = c_in;
 		if (slayout == TP_LAYOUT_MONO) s_out = s_in;
 		/* engine-split single buffer: the caller only controls the total; use sizes around the documented optimum */
